@@ -36,7 +36,17 @@ FUNCS = [
     ("machineTransition", "framework/state_machine.py", "Machine", "transition"),
     ("createSimulants", "framework/population/manager.py", "PopulationManager", "_create_simulants"),
     ("resourceSortedNodes", "framework/resource.py", "ResourceManager", "sorted_nodes"),
+    ("viewUpdate", "framework/population/population_view.py", "PopulationView", "update"),
     ("viewGet", "framework/population/population_view.py", "PopulationView", "get"),
+    ("clockStepForward", "framework/time.py", "SimulationClock", "step_forward"),
+    ("clockActive", "framework/time.py", "SimulationClock", "get_active_simulants"),
+    ("clockMoveToEnd", "framework/time.py", "SimulationClock", "move_simulants_to_end"),
+    ("cmFlatten", "framework/components/manager.py", "ComponentManager", "_flatten"),
+    ("cmAddComponents", "framework/components/manager.py", "ComponentManager", "add_components"),
+    ("cmSetupComponents", "framework/components/manager.py", "ComponentManager", "setup_components"),
+    ("cmSetupAll", "framework/components/manager.py", "ComponentManager", "_setup_components"),
+    ("ocsAdd", "framework/components/manager.py", "OrderedComponentSet", "add"),
+    ("ocsContains", "framework/components/manager.py", "OrderedComponentSet", "__contains__"),
     ("engineRun", "framework/engine.py", "SimulationContext", "run"),
 ]
 
@@ -144,6 +154,16 @@ def expr(n) -> str:
         _LOCALS.add(g.target.id)
         try:
             return "(.dictComp %s %s %s %s)" % (expr(n.key), expr(n.value), _q(g.target.id), expr(g.iter))
+        finally:
+            _LOCALS.clear()
+            _LOCALS.update(saved | {g.target.id})
+    if isinstance(n, ast.ListComp) and len(n.generators) == 1 and not n.generators[0].ifs and not n.generators[0].is_async \
+            and isinstance(n.generators[0].target, ast.Name):
+        g = n.generators[0]
+        saved = set(_LOCALS)
+        _LOCALS.add(g.target.id)
+        try:
+            return "(.listComp %s %s %s)" % (expr(n.elt), _q(g.target.id), expr(g.iter))
         finally:
             _LOCALS.clear()
             _LOCALS.update(saved | {g.target.id})
